@@ -241,7 +241,7 @@ def canon(tree, st):
 
 
 def expand(task):
-    tree, st, hist, ops_by_N_reduced, want = task
+    tree, st, hist, ops_by_N_reduced, want, keep_states = task
     names = names_of(tree)
     n, disabled = 0, 0
     viols, news = [], {}
@@ -259,6 +259,8 @@ def expand(task):
                 c = canon(tree, new)
                 if c not in news:
                     news[c] = (new, (target,) + tuple(op))
+    if not keep_states:  # last level: only the canonical hashes are needed for counting
+        news = {hash(c): None for c in news}
     return n, disabled, viols, news
 
 
@@ -278,7 +280,7 @@ def bfs(trees, Ns, levels, state_cap):
     for depth, red in enumerate(levels, 1):
         items = list(level.values())
         last = depth == len(levels)
-        tasks = [(t, st, h, red, True) for (t, st, h) in items]
+        tasks = [(t, st, h, red, True, not last) for (t, st, h) in items]
         res = common.pmap(expand, tasks, chunk=max(1, len(tasks) // (common.NCPU * 8)))
         nxt = {}
         for (t, st, h), (n, dis, vs, news) in zip(items, res):
@@ -291,6 +293,10 @@ def bfs(trees, Ns, levels, state_cap):
                               "case": {"tree": t, "state": {k: [v[0].tolist(), v[1].tolist()] for k, v in st.items()},
                                        "target": target, "op": list(op)},
                               "observed": problems})
+            if last:
+                for c in news:
+                    seen.add(c)
+                continue
             for c, (new, step) in news.items():
                 if c not in seen:
                     if len(seen) >= state_cap:
@@ -311,8 +317,9 @@ def run(tier, seed):
         parts = [("depth1-full", bfs(list(TREES), [1, 2, 3], [False], 10 ** 6)),
                  ("depth2-reduced", bfs(list(TREES), [1, 2], [True, True], 10 ** 6))]
     else:
-        parts = [("depth2-full", bfs(list(TREES), [1, 2, 3], [False, False], 10 ** 6)),
-                 ("depth3-reduced-nested", bfs(["nested2", "nested3"], [1, 2], [True, True, True], 60000))]
+        parts = [("depth2-full", bfs(list(TREES), [1, 2], [False, False], 10 ** 7)),
+                 ("depth2-full-N3-flat", bfs(["flat"], [3], [False, False], 10 ** 7)),
+                 ("depth3-reduced-nested", bfs(["nested2"], [1, 2], [True, True, True], 10 ** 7))]
     viols = [v for _, (_, vs, _) in parts for v in vs]
     samples = [s for _, (_, _, sm) in parts for s in sm]
     states = sum(p[1][0]["states"] for p in parts)
